@@ -45,7 +45,18 @@ type Spec struct {
 var (
 	listFlag = flag.Bool("verif.list", false, "print the test table as JSON and exit")
 	table    []Spec
+	commands []string
+	helpers  []string
 )
+
+// Commands asks the driver to build the named obitools4 commands
+// (cmd/obitools/<name>) from the tree under test, with -tags verif, into
+// $VERIF_BIN before the tests of this package are started.
+func Commands(names ...string) { commands = append(commands, names...) }
+
+// Helpers asks the driver to build harness main packages (harness/cmd/<name>)
+// into $VERIF_BIN.
+func Helpers(names ...string) { helpers = append(helpers, names...) }
 
 // Tests registers the test table of the package (call from an init or TestMain).
 func Tests(specs ...Spec) { table = append(table, specs...) }
@@ -56,6 +67,8 @@ func Main(m *testing.M, property string) {
 	if *listFlag {
 		b, _ := json.Marshal(table)
 		fmt.Println("VERIF-TABLE " + string(b))
+		b, _ = json.Marshal(map[string][]string{"commands": commands, "helpers": helpers})
+		fmt.Println("VERIF-BUILD " + string(b))
 		os.Exit(0)
 	}
 	global.property = property
